@@ -128,7 +128,7 @@ def run(tier, seed, work):
     res = vp.Result("C04", tier, seed, "exploration")
     maxk = 2 if tier == "quick" else 3
     envs = list(enum_envs(maxk))
-    nrand = 400 if tier == "quick" else 6000
+    nrand = 3000 if tier == "quick" else 20000
     shards = [("enum", s, seed) for s in vp.split(envs, vp.NCPU * 4)]
     shards += [("rand", s, seed) for s in vp.split(range(nrand), vp.NCPU)]
     for d in vp.pmap(shard_run, shards):
